@@ -286,6 +286,17 @@ func c12Gen(r *rng.Rand, i int, tier string) interface{} {
 		}
 		in.Qs = append(in.Qs, q)
 	}
+	if in.Var && len(times) > 0 && r.Chance(60) {
+		// "last N" reaching one slot into the previous year file (the bufferMeta over-read class)
+		ymax := time.Unix(times[len(times)-1], 0).UTC().Year()
+		seen := map[int64]bool{}
+		for _, t := range times {
+			if time.Unix(t, 0).UTC().Year() == ymax {
+				seen[(t-fxJan1(ymax))/tfs] = true
+			}
+		}
+		in.Qs = append(in.Qs, c12Q{ReqTF: in.TF, S: 0, EMax: true, N: len(seen) + 1 + r.Intn(2), FromStart: false})
+	}
 	return in
 }
 
@@ -293,6 +304,11 @@ type c12ObsRec struct {
 	T  int64  `json:"t"`
 	NS int64  `json:"ns"`
 	P  []byte `json:"p"`
+}
+type c12Slot struct {
+	year int
+	idx  int64 // (t - Jan 1) / tf
+	recs []c12ObsRec
 }
 type c12ObsQ struct {
 	Code  int         `json:"code"`
@@ -352,6 +368,82 @@ func c12DenseRun(d *c12Dense, rows []c12ObsRec) (a int64, ok bool) {
 		}
 	}
 	return a, true
+}
+
+// c12SpanGarbage mirrors VRead.last_span_garbage: a LAST-n scan over the 24-byte index slots of a variable
+// bucket that, in an earlier year file, reads (in whole 8192-slot chunks from the end of the file plan) more live
+// slots than were still missing, after a later year file already contributed slots.
+func c12SpanGarbage(tfs int64, slots []c12Slot, q c12Q, n int) bool {
+	const recLen, hdr = int64(24), int64(37024)
+	yearOf := func(t int64) int { return time.Unix(t, 0).UTC().Year() }
+	idxOf := func(t int64) int64 {
+		j := fxJan1(yearOf(t))
+		if tfs == 86400 {
+			return (t - j) / 86400
+		}
+		return 1 + (t-j)/tfs
+	}
+	sy := yearOf(q.S)
+	ey := 30579
+	if !q.EMax {
+		ey = yearOf(q.E)
+	}
+	// per year file (descending): chunk numbers of the live slots inside the plan, ascending offset
+	byYear := map[int][]int64{}
+	var years []int
+	for _, s := range slots {
+		y := s.year
+		if y < sy || y > ey {
+			continue
+		}
+		nsl := (fxJan1(y+1) - fxJan1(y)) / tfs
+		so := hdr
+		if y == sy {
+			so = hdr + (idxOf(q.S)-1)*recLen
+		}
+		eo := hdr + nsl*recLen
+		if !q.EMax && y == ey {
+			eo = hdr + (idxOf(q.E)-1)*recLen + recLen
+		}
+		ln := eo - so
+		if mx := nsl*recLen + recLen; ln > mx {
+			ln = mx
+		}
+		idx := s.idx + 1
+		if tfs == 86400 {
+			idx = s.idx
+		}
+		off := hdr + (idx-1)*recLen
+		if off < so || off+recLen > so+ln {
+			continue
+		}
+		if _, ok := byYear[y]; !ok {
+			years = append(years, y)
+		}
+		byYear[y] = append(byYear[y], (so+ln-off-recLen)/(8192*recLen))
+	}
+	sort.Sort(sort.Reverse(sort.IntSlice(years)))
+	left, seen := n, false
+	for _, y := range years {
+		cs := byYear[y]
+		if len(cs) < left {
+			left -= len(cs)
+			seen = seen || len(cs) > 0
+			continue
+		}
+		if !seen || left < 1 {
+			return false
+		}
+		c := cs[len(cs)-left] // the slot that completes the request
+		cnt := 0
+		for _, x := range cs {
+			if x <= c {
+				cnt++
+			}
+		}
+		return cnt > left
+	}
+	return false
 }
 
 func c12Tle(as, an, bs, bn int64) bool { return as < bs || (as == bs && an <= bn) }
@@ -442,11 +534,7 @@ func c12Run(raw json.RawMessage) (res Result, err error) {
 		return res, fmt.Errorf("state query failed: %s", serr)
 	}
 	obs.NState = len(state)
-	type slot struct {
-		year int
-		idx  int64
-		recs []c12ObsRec
-	}
+	type slot = c12Slot
 	var slots []slot
 	slotOf := func(t int64) (int, int64) {
 		y := time.Unix(t, 0).UTC().Year()
@@ -584,6 +672,10 @@ func c12Run(raw json.RawMessage) (res Result, err error) {
 			}
 			guard = sortedState && (ns <= q.N || side)
 		}
+		span := in.Var && !scaled && !q.FromStart && q.N >= 1 && c12SpanGarbage(tfs, slots, q, q.N)
+		if span {
+			guard = false
+		}
 		if guard {
 			anyGuard = true
 		}
@@ -594,6 +686,8 @@ func c12Run(raw json.RawMessage) (res Result, err error) {
 			switch {
 			case scaled:
 				res.Class = "limit-scaled-by-timeframe-ratio"
+			case span:
+				res.Class = "variable-last-limit-spans-year-files"
 			case in.Var && !guard:
 				res.Class = "variable-limit-counts-intervals"
 			}
